@@ -570,7 +570,7 @@ def fresh_suites(ctx, entries):
 def check_C01(ctx):
     return run_message_property(ctx, dict(
         theorems=["C01_scalar_field", "C01_varint_readable", "C01_framing", "C01_marshal_is_reference_encoding", "C01_total", "C01_reference_reads_the_values"],
-        suites=lambda c: [_msg_suite(c, 2000, 60000)] + fresh_suites(c, [("msg", ["msg", c.seed + 11, _n(c, 1200, 30000), ".proto:"])]),
+        suites=lambda c: [_msg_suite(c, 6000, 60000)] + fresh_suites(c, [("msg", ["msg", c.seed + 11, _n(c, 3600, 30000), ".proto:"])]),
         prop={"msg": msg_flag("c01")}, tie={"msg": tie_bytes}, spec={"msg": spec_msg},
         nontrivial=nontrivial_any, shrink_flag="c01=bad", rule=MSG_RULE + "; oracle: proto.Unmarshal (dynamicpb) of the Marshal output compared with the value"))
 
@@ -578,7 +578,7 @@ def check_C01(ctx):
 def check_C03(ctx):
     return run_message_property(ctx, dict(
         theorems=["C03_scalar", "C03_transform", "C03_duration", "C03_time", "C03_reference_round_trip", "C03_marshal_unmarshal"],
-        suites=lambda c: [_msg_suite(c, 2000, 60000)] + fresh_suites(c, [("msg", ["msg", c.seed + 12, _n(c, 1200, 30000), ".proto:"])]),
+        suites=lambda c: [_msg_suite(c, 6000, 60000)] + fresh_suites(c, [("msg", ["msg", c.seed + 12, _n(c, 3600, 30000), ".proto:"])]),
         prop={"msg": msg_flag("c03")}, tie={"msg": tie_bytes}, spec={"msg": spec_msg},
         nontrivial=nontrivial_any, shrink_flag="c03=bad", rule=MSG_RULE + "; oracle: deep comparison of m with Unmarshal(Marshal(m)) (bit patterns, presence, map contents)"))
 
@@ -586,7 +586,7 @@ def check_C03(ctx):
 def check_C06(ctx):
     return run_message_property(ctx, dict(
         theorems=["C06_minimal_varint", "C06_minimal_tag", "C06_minimal_length", "C06_field", "C06_strong"],
-        suites=lambda c: [_msg_suite(c, 2000, 60000)] + fresh_suites(c, [("msg", ["msg", c.seed + 13, _n(c, 1200, 30000), ".proto:"])]),
+        suites=lambda c: [_msg_suite(c, 6000, 60000)] + fresh_suites(c, [("msg", ["msg", c.seed + 13, _n(c, 3600, 30000), ".proto:"])]),
         prop={"msg": lambda r: r["impl"] != "PANIC" and r["flags"].get("c06") in ("ok", "na")}, tie={"msg": tie_bytes}, spec={"msg": spec_msg},
         nontrivial=nontrivial_any, shrink_flag="c06=bad",
         rule=MSG_RULE + "; map-free types only for the property test; oracle: bytes == deterministic re-marshal of their own parse (protobuf-go)"))
@@ -595,7 +595,7 @@ def check_C06(ctx):
 def check_C08(ctx):
     return run_message_property(ctx, dict(
         theorems=["C08_optional_always", "C08_oneof_always", "C08_oneof_enum_always", "C08_always_emits", "C08_message_presence", "C08_presence_round_trip"],
-        suites=lambda c: [_msg_suite(c, 1500, 60000)] + fresh_suites(c, [("msg", ["msg", c.seed + 14, _n(c, 1000, 20000), "presence.proto:"]), ("msg", ["msg", c.seed + 15, _n(c, 1200, 30000), ".proto:"])]),
+        suites=lambda c: [_msg_suite(c, 4000, 60000)] + fresh_suites(c, [("msg", ["msg", c.seed + 14, _n(c, 2500, 20000), "presence.proto:"]), ("msg", ["msg", c.seed + 15, _n(c, 3000, 30000), ".proto:"])]),
         prop={"msg": lambda r: r["impl"] != "PANIC" and r["flags"].get("c08o") == "ok" and r["flags"].get("c08r") == "ok"},
         tie={"msg": tie_bytes}, spec={"msg": spec_msg}, nontrivial=nontrivial_any, shrink_flag="c08",
         rule=MSG_RULE + "; projection: presence skeleton (nil-ness, selected oneof member, list lengths) after round trip and as seen by the reference (Has())"))
@@ -604,7 +604,7 @@ def check_C08(ctx):
 def check_C02(ctx):
     return run_message_property(ctx, dict(
         theorems=["C02_value_rules", "C02_field", "C02_tag", "C02_loop_is_dispatch", "C02_flat_message", "C02_every_decode_body", "C02_varint_reader", "C02_unmarshal_is_reference_decoder", "C02_exchange_records_reference", "C02_exchange_records_unmarshal", "C02_split_submessage"],
-        suites=lambda c: [("decv", ["decv", c.seed, _n(c, 2500, 60000)])],
+        suites=lambda c: [("decv", ["decv", c.seed, _n(c, 8000, 60000)])],
         prop={"dec": lambda r: r["ist"] == "ok" and r["ost"] == "ok" and r["flags"].get("c02") == "ok"},
         tie={"dec": tie_dec_val}, spec={"dec": spec_dec}, nontrivial=nontrivial_any, rule=DEC_RULE + " (valid stream only); oracle: proto.Unmarshal of the same bytes"))
 
@@ -612,7 +612,7 @@ def check_C02(ctx):
 def check_C10(ctx):
     return run_message_property(ctx, dict(
         theorems=["C10_known_untouched", "C10_retag", "C10_skip_varint", "C10_unknown_token", "C10_unmarshal_is_reference_decoder"],
-        suites=lambda c: [("decv", ["decv", c.seed + 7, _n(c, 2500, 60000)]), ("decb", ["decb", c.seed + 7, _n(c, 1500, 30000)])],
+        suites=lambda c: [("decv", ["decv", c.seed + 7, _n(c, 6000, 60000)]), ("decb", ["decb", c.seed + 7, _n(c, 4000, 30000)])],
         prop={"dec": lambda r: r["ist"] != "PANIC" and (r["ist"] != "ok" or r["flags"].get("wf") == "1") and
               (r["tag"] != "valid" or (r["ist"] == "ok" and r["flags"].get("c02") == "ok"))},
         tie={"dec": tie_dec_val}, spec={"dec": spec_dec}, nontrivial=nontrivial_any,
@@ -622,8 +622,8 @@ def check_C10(ctx):
 def check_C04(ctx):
     return run_message_property(ctx, dict(
         theorems=["C04_varint_in_bounds", "C04_bytes_in_bounds", "C04_cursor_progress", "C04_skip_progress", "C04_reader_progress", "C04_skipper_in_bounds", "C04_statement_progress", "C04_total_on_arbitrary_bytes"],
-        suites=lambda c: [("decb", ["decb", c.seed, _n(c, 3000, 100000)])] +
-                         (fresh_suites(c, [("deep", ["deep", c.seed]), ("decb", ["decb", c.seed + 5, _n(c, 1500, 30000)])]) or [("deep", ["deep", c.seed])]),
+        suites=lambda c: [("decb", ["decb", c.seed, _n(c, 8000, 100000)])] +
+                         (fresh_suites(c, [("deep", ["deep", c.seed]), ("decb", ["decb", c.seed + 5, _n(c, 4000, 30000)])]) or [("deep", ["deep", c.seed])]),
         prop={"dec": lambda r: r["ist"] != "PANIC" and "input-modified" not in r["flags"] and "slow" not in r["flags"]},
         tie={"dec": tie_dec_class}, nontrivial=nontrivial_any,
         trusted=["runtime facts observed, not modelled: Go stack growth on 10 000-deep nesting, wall-clock time, recover()"],
@@ -633,7 +633,7 @@ def check_C04(ctx):
 def check_C05(ctx):
     return run_message_property(ctx, dict(
         theorems=["C05_invalid_number", "C05_truncated_tag", "C05_wrong_wire", "C05_sticky_next", "C05_sticky_pop", "C05_skip_is_one_value", "C05_accepts_exactly_wellformed"],
-        suites=lambda c: [("decb", ["decb", c.seed + 3, _n(c, 4000, 100000)]), ("decv", ["decv", c.seed + 3, _n(c, 800, 20000)])],
+        suites=lambda c: [("decb", ["decb", c.seed + 3, _n(c, 10000, 100000)]), ("decv", ["decv", c.seed + 3, _n(c, 2500, 20000)])],
         prop={"dec": lambda r: r["ist"] != "PANIC" and (r["ist"] == "ok") == (r["flags"].get("wf") == "1")},
         tie={"dec": tie_dec_ok}, spec={"dec": spec_dec}, nontrivial=nontrivial_any,
         rule=DEC_RULE + "; oracle: independent well-formedness predicate on protobuf-go's protowire; projection: err == nil"))
@@ -642,7 +642,7 @@ def check_C05(ctx):
 def check_C09(ctx):
     return run_message_property(ctx, dict(
         theorems=["C09_no_reset", "C09_cursor", "C09_overwrite", "C09_tokens", "C09_reference", "C09_unmarshal_concat"],
-        suites=lambda c: [("hist", ["hist", c.seed, _n(c, 1500, 40000)])],
+        suites=lambda c: [("hist", ["hist", c.seed, _n(c, 5000, 40000)])],
         prop={"hist": lambda r: r["flags"].get("seq") == "ok" and r["flags"].get("ref") == "ok"},
         tie={"hist": tie_hist}, nontrivial=nontrivial_any,
         rule="histories of 1-4 valid (rewritten) encodings of one type decoded sequentially into one message and in one call on the concatenation; "
@@ -652,9 +652,9 @@ def check_C09(ctx):
 def check_C11(ctx):
     return run_message_property(ctx, dict(
         theorems=["C11_entry", "C11_map_round_trip"],
-        suites=lambda c: [("msg", ["msg", c.seed, _n(c, 300, 30000), "Map"]), ("decv", ["decv", c.seed, _n(c, 300, 30000), "Map"]), ("hist", ["hist", c.seed + 1, _n(c, 150, 5000), "Map"])] +
-                         fresh_suites(c, [("msg", ["msg", c.seed + 2, _n(c, 250, 20000), "allmaps"]), ("decv", ["decv", c.seed + 2, _n(c, 250, 20000), "allmaps"]),
-                                          ("hist", ["hist", c.seed + 2, _n(c, 100, 5000), "allmaps"])]),
+        suites=lambda c: [("msg", ["msg", c.seed, _n(c, 1000, 30000), "Map"]), ("decv", ["decv", c.seed, _n(c, 1000, 30000), "Map"]), ("hist", ["hist", c.seed + 1, _n(c, 500, 5000), "Map"])] +
+                         fresh_suites(c, [("msg", ["msg", c.seed + 2, _n(c, 800, 20000), "allmaps"]), ("decv", ["decv", c.seed + 2, _n(c, 800, 20000), "allmaps"]),
+                                          ("hist", ["hist", c.seed + 2, _n(c, 300, 5000), "allmaps"])]),
         filter=lambda r: "Map" in r.get("key", "") or "allmaps" in r.get("key", ""),
         prop={"msg": lambda r: r["impl"] != "PANIC" and r["flags"].get("c01") == "ok" and r["flags"].get("c03") == "ok",
               "dec": lambda r: r["ist"] == "ok" and r["flags"].get("c02") == "ok",
@@ -801,7 +801,7 @@ def check_C12(ctx):
     flt = fresh_filter(res)
     spec = dict(
         theorems=["C12_always_selection", "C12_boundary_optional_enum", "C12_checked_in_total", "C12_encode_correct"],
-        suites=lambda c: [("msg", ["msg", c.seed, _n(c, 2500, 40000), ".proto:"], res["driver"]), ("decv", ["decv", c.seed, _n(c, 1500, 20000), ".proto:"], res["driver"])],
+        suites=lambda c: [("msg", ["msg", c.seed, _n(c, 5000, 40000), ".proto:"], res["driver"]), ("decv", ["decv", c.seed, _n(c, 4000, 20000), ".proto:"], res["driver"])],
         filter=flt,
         prop={"msg": lambda r: r["impl"] != "PANIC" and all(r["flags"].get(k) in ("ok", "na") for k in ("c01", "c03", "c06", "c08o", "c08r")),
               "dec": lambda r: r["ist"] == "ok" and r["flags"].get("c02") == "ok"},
